@@ -328,7 +328,17 @@ def absorb_k(out, prop, ob, rec):
             except Exception as e:  # noqa
                 rep = {"reproduced": False, "error": repr(e)}
         else:
-            rep = {"reproduced": False, "error": "Kani printed no concrete playback values for the failing assertion"}
+            # Kani printed no values for this assertion: have an independent SAT solver decide the same harness
+            try:
+                rr = kengine._run_isolated(ob["harness"], K_HARNESSES[ob["harness"]].get("module", "verif_generate"), ob["bounds"],
+                                           max(ob["timeout"], 1800), ob["mem_gb"], False, None, None, ob.get("focus"), None, "kissat")
+                got = {f["description"] for f in rr.get("failed", [])}
+                rep = {"reproduced": any(f["description"] in got for f in relevant), "second_solver": "kissat",
+                       "kani_verdict": rr.get("verdict"), "failed": sorted(got), "wall_s": rr.get("wall_s"),
+                       "note": "Kani printed no concrete playback values for the failing assertion; the same harness was decided again "
+                               "with kissat instead of cadical and fails at the same assertion"}
+            except Exception as e:  # noqa
+                rep = {"reproduced": False, "error": "no concrete playback values and the second solver run failed: %r" % (e,)}
         out.replayed += 1
         if not rep.get("reproduced"):
             out.add_obligation(name, "K", "inconclusive", **summary)
